@@ -34,6 +34,7 @@ type observation struct {
 
 var (
 	hex16   = regexp.MustCompile(`^[0-9a-f]{16}$`)
+	idRe    = regexp.MustCompile(`[0-9a-f]{16}`)
 	pathRe  = regexp.MustCompile(`/dev/shm/[^ "]*/(` + shardDir + `)`)
 	maxHist = 8
 )
@@ -44,6 +45,13 @@ func guard(f func()) (msg string) {
 			msg = strings.TrimSpace(pathRe.ReplaceAllString(fmt.Sprint(p), "$1"))
 			if i := strings.IndexByte(msg, '\n'); i > 0 {
 				msg = msg[:i]
+			}
+			msg = idRe.ReplaceAllString(msg, "<id>")
+			if i := strings.Index(msg, ": File system return error"); i > 0 {
+				msg = msg[:i]
+			}
+			if len(msg) > 160 {
+				msg = msg[:160]
 			}
 			if msg == "" {
 				msg = "panic"
